@@ -2,7 +2,7 @@
 
 Mirror stream (oracle=False): the REAL idealNumThreads / getThreadDistance / align (harness op `psintervals`, which writes `numThreads_`
 directly, bypassing the hardware_concurrency clamp of setNumThreads) against the model `Pc.It.parIntervals` on
-  * thread counts on both sides of the proved bound 27 709 465 (PcProps/C18ClosedTop.lean `parallel_count_total_umax`), with `start` built so that the
+  * thread counts on both sides of the proved bound 27 709 467 (PcProps/C18ClosedTop.lean `parallel_count_total_umax`), with `start` built so that the
     last task is 1..40 long (the wrap needs `(dist-1) % threadDist < 32`): the model and the real arithmetic must agree also where both wrap to
     `0:18446744073709551615`;
   * realistic thread counts (1..4096) with random and structured starts at stop in {2^64-1, 2^64-2}: no interval may start at 0 unless start = 0.
@@ -54,7 +54,7 @@ def top_ops(ctx):
 def _classify(o, r):
     t = int(o.split()[3])
     wrapped = any(iv.startswith("0:") for iv in r.split()[1:]) and o.split()[1] != "0"
-    return ("threads>27709465" if t > 27709465 else "threads<=27709465") + (":WRAP" if wrapped else "")
+    return ("threads>27709467" if t > 27709467 else "threads<=27709467") + (":WRAP" if wrapped else "")
 
 
 def streams(ctx):
